@@ -1,7 +1,10 @@
 //! mode `tree`: real route trees built natively through the included routing.rs.
 //! Start-up output, one line per tree:  `TREE <i> U+001F <tables as in the T command> U+001F <generate_routes(): routes sep U+001E>`
 //! then per stdin line `<tree index> U+001F <path>`:  match_nested  ->
-//!   `<locale index|-> U+001F <matched> U+001F <remaining> U+001F <params k=v,..>`  or `none`
+//!   `<locale index|-> U+001F R_impl U+001F R_bare U+001F R_locale0 U+001E R_locale1 ...`
+//!   R = `none` | `<matched> U+001C <remaining> U+001C <params k=v,..>`; R_bare / R_locale are the oracle: the inner route tree
+//!   (leptos_router alone) on the whole path under the default locale / on the rest of the path under each locale whose
+//!   name is exactly the first segment
 use crate::fixed::i18n::Locale as Fixed;
 use crate::fixed::i18n::*;
 use crate::routing;
@@ -40,12 +43,21 @@ macro_rules! tree {
         let g: Vec<String> = probe.routes.iter().map(|r| route(r)).collect();
         $out.push(format!("{}\u{1f}{}", t.join("\u{1d}"), g.join("\u{1e}")));
         let matcher = probe.matcher;
-        let m: Matcher = Box::new(move |p: &str| match matcher(p) {
-            Some((loc, matched, remaining, params)) => {
-                let params: Vec<String> = params.into_iter().map(|(k, v)| format!("{k}={v}")).collect();
-                format!("{}\u{1f}{}\u{1f}{}\u{1f}{}", loc.map(|l| l.to_string()).unwrap_or("-".to_string()), matched, remaining, params.join(","))
-            }
-            None => "none".to_string(),
+        let m: Matcher = Box::new(move |p: &str| {
+            let pr = matcher(p);
+            let enc = |r: &Option<routing::MatchRes>| match r {
+                Some((matched, remaining, params)) => {
+                    let params: Vec<String> = params.iter().map(|(k, v)| format!("{k}={v}")).collect();
+                    format!("{}\u{1c}{}\u{1c}{}", matched, remaining, params.join(","))
+                }
+                None => "none".to_string(),
+            };
+            let (loc, ir) = match pr.implr {
+                Some((loc, r)) => (loc.map(|l| l.to_string()).unwrap_or("-".to_string()), Some(r)),
+                None => ("-".to_string(), None),
+            };
+            let per: Vec<String> = pr.per_locale.iter().map(|r| enc(r)).collect();
+            format!("{}\u{1f}{}\u{1f}{}\u{1f}{}", loc, enc(&ir), enc(&pr.bare), per.join("\u{1e}"))
         });
         $matchers.push(m);
     }};
@@ -75,6 +87,29 @@ pub fn run() {
     tree!(out, matchers, "/app", (
         NestedRoute::new(path!(""), v),
         NestedRoute::new((routing::make_i18n_segment::<Fixed, _>(|l| td_string!(l, about)), ParamSegment("x")), v),
+    ));
+    // 4..: tables whose first segment is a param / optional param / splat, alone and next to static routes
+    tree!(out, matchers, "/", (NestedRoute::new(path!(":slug"), v),));
+    tree!(out, matchers, "/", (
+        NestedRoute::new(path!("/"), v),
+        NestedRoute::new(routing::make_i18n_segment::<Fixed, _>(|l| td_string!(l, about)), v),
+        NestedRoute::new(path!(":slug"), v),
+    ));
+    tree!(out, matchers, "/", (NestedRoute::new((OptionalParamSegment("a"),), v),));
+    tree!(out, matchers, "/", (
+        NestedRoute::new(path!("counter"), v),
+        NestedRoute::new((OptionalParamSegment("a"), StaticSegment("x")), v),
+    ));
+    tree!(out, matchers, "/", (NestedRoute::new((WildcardSegment("any"),), v),));
+    tree!(out, matchers, "/", (
+        NestedRoute::new(path!("/"), v),
+        NestedRoute::new(path!("counter"), v),
+        NestedRoute::new(routing::make_i18n_segment::<Fixed, _>(|l| td_string!(l, about)), v),
+        NestedRoute::new((WildcardSegment("any"),), v),
+    ));
+    tree!(out, matchers, "/", (
+        NestedRoute::new(path!("counter"), v),
+        NestedRoute::new((ParamSegment("a"), ParamSegment("b")), v),
     ));
     let mut o = std::io::BufWriter::new(std::io::stdout().lock());
     for (i, l) in out.iter().enumerate() {
